@@ -1,11 +1,12 @@
 """C12: printed values read back as the same value."""
 import random
+import concurrent.futures
 from common import *
 import expr as X
 import pool
 
 PROP = "C12"
-PROP_FILES = ["Properties/C12.v"]
+PROP_FILES = ["Properties/C12.v", "Check/C12Check.v"]
 N = X.num
 
 
@@ -171,6 +172,62 @@ def region(d):
     return None
 
 
+CODES = {1: "the printer model (Sys/Printer.v print) and fu.Repr write different bytes",
+         2: "the round trip read (print w) = norm w fails inside the model on a printable value (theorem C12_print_read_round_trip_partial)",
+         3: "the reader model (Sys/Reader.v) and syntax.EvaluateExpr read different values from the printed text"}
+
+
+def model_correspondence(run, cases, o1, o2, hist):
+    """printer model vs fu.Repr byte for byte, reader model vs EvaluateExpr of the printed text; evaluated inside Coq"""
+    terms, byid = [], {}
+    hist.update({"model_compared": 0, "model_outside_numbers": 0, "model_not_printable": 0, "model_by_go_type": {}})
+    for c in cases:
+        a = o1.get(c["id"]) or {}
+        if a.get("st") != "ok" or "ord" not in a:
+            continue
+        w = val_term(a["ord"])
+        if w is None:
+            hist["model_outside_numbers"] += 1
+            continue
+        b = o2.get(c["id"]) or {}
+        bt = val_term(b["val"]) if b.get("st") == "ok" and "val" in b else None
+        byid[c["id"]] = (c, a, b)
+        terms.append("{| p_id := %d; p_ord := %s; p_repr := %s; p_back := %s |}" % (
+            c["id"], w, zl(a["repr"].encode("utf-8")), ("Some " + bt) if bt else "None"))
+    chunks = [terms[i:i + 150] for i in range(0, len(terms), 150)]
+
+    def do(ic):
+        k, chunk = ic
+        src = ("From Arrai Require Import Base.Val Check.C12Check.\nDefinition cases : list case12 := [\n" + ";\n".join(chunk) +
+               "].\nDefinition R := Eval vm_compute in report12 cases.\nPrint R.\n")
+        rc, so, se = coq_eval("c12_cases_%d_%d" % (os.getpid(), k), src)
+        return coq_report(so, "R"), se
+
+    with concurrent.futures.ThreadPoolExecutor(max_workers=6) as ex:
+        for (rep, se), chunk in zip(ex.map(do, enumerate(chunks)), chunks):
+            if rep is None:
+                run.corr_breaks.append({"what": "the printer / reader model could not be evaluated (Check/C12Check.v)", "log": se[-1200:]})
+                continue
+            bad = dict(rep)
+            for t in chunk:
+                cid = int(t.split("p_id := ")[1].split(";")[0])
+                c, a, b = byid[cid]
+                code = bad.get(cid, 0)
+                if code == 9:
+                    hist["model_not_printable"] += 1
+                    if region(a["val"]) is None:
+                        run.corr_breaks.append({"what": "a value outside `printable` that is in no open finding's region",
+                                                "case": {"label": c["label"], "src": c["src"], "printed": a.get("repr")}})
+                    continue
+                hist["model_compared"] += 1
+                ty = a.get("type", "?")
+                hist["model_by_go_type"][ty] = hist["model_by_go_type"].get(ty, 0) + 1
+                if code:
+                    run.corr_breaks.append({"what": CODES.get(code, str(code)), "theorem": "C12_print_read_round_trip_partial",
+                                            "case": {"label": c["label"], "src": c["src"], "printed": a.get("repr"), "enumerated": a.get("ord")},
+                                            "read_back": b.get("val")})
+
+
 def main(tier, seed, replay=None):
     run = Run(PROP, tier, seed)
     vh, proof = prepare(PROP_FILES, thorough=(tier == "thorough"))
@@ -180,7 +237,7 @@ def main(tier, seed, replay=None):
         cases = [{"id": 0, "label": "replay", "src": rp["case"]["src"]}]
     else:
         cases = gen_cases(rng, tier)
-    o1, _, _ = run_harness(vh, "eval", [{"id": c["id"], "src": c["src"], "budget_ms": 4000} for c in cases], stall=8)
+    o1, _, _ = run_harness(vh, "c12", [{"id": c["id"], "src": c["src"], "budget_ms": 4000} for c in cases], stall=8)
     second = []
     for c in cases:
         o = o1.get(c["id"]) or {}
@@ -218,11 +275,12 @@ def main(tier, seed, replay=None):
             seen.add(a["repr"])
             if a["val"] not in ({"s": [], "c": 0},):
                 dist += 1
+    model_correspondence(run, cases, o1, o2, hist)
     step = max(1, len(cases) // 8)
     run.cov.update({"evaluations": len(cases) + len(second), "distinct_nontrivial": dist,
-                    "rule": "values from the shared pool (every representation), every control character / quote / backslash / non-BMP rune alone, in context and inside attribute names, offset and sparse sequences, multi-valued dicts, @neg wrappers, byte arrays of printable / non-printable / quote bytes with offsets, dicts keyed by negative numbers, strings needing escapes, sets, arrays, tuples and byte arrays, nested holes, sets of sets, empty values of every kind inside containers, 38 attribute names that look like syntax (`a, b`, `|`, `(`, `:`, keywords, ...) in tuples and as relation headings, numbers around the switch to exponent notation, at the extremes of the double range and subnormals, plus random nested values; each is printed (fu.Repr), the text evaluated again (syntax.EvaluateExpr) and the canonical dumps and printed forms compared; distinct by printed form, non-trivial = non-empty value that round-trips; numbers restricted to those printing in < 15 characters",
+                    "rule": "values from the shared pool (every representation), every control character / quote / backslash / non-BMP rune alone, in context and inside attribute names, offset and sparse sequences, multi-valued dicts, @neg wrappers, byte arrays of printable / non-printable / quote bytes with offsets, dicts keyed by negative numbers, strings needing escapes, sets, arrays, tuples and byte arrays, nested holes, sets of sets, empty values of every kind inside containers, 38 attribute names that look like syntax (`a, b`, `|`, `(`, `:`, keywords, ...) in tuples and as relation headings, numbers around the switch to exponent notation, at the extremes of the double range and subnormals, plus random nested values; each is printed (fu.Repr), compared byte for byte with the printer model run on the value as the implementation enumerates it (Check/C12Check.v, inside Coq), the text evaluated again (syntax.EvaluateExpr) and the canonical dumps and printed forms compared; distinct by printed form, non-trivial = non-empty value that round-trips; numbers restricted to those printing in < 15 characters",
                     "samples": [(o1.get(cases[i]["id"]) or {}).get("repr") for i in range(0, len(cases), step)][:8],
                     "outcome_histogram": hist, "exhaustive": False})
-    run.assumptions = ["strconv float formatting and the wbnf grammar engine are exercised, not modelled",
+    run.assumptions = ["strconv float formatting (beyond integers and half-integers) and the wbnf grammar engine are exercised, not modelled; the lexer (text to tokens) is not modelled: the reader model runs on the printer model's tokens after their rendering was found equal to fu.Repr byte for byte",
                        "UTF-8 encoding of runes >= 128 passes through printer and parser unchanged"]
     return run.finish(proof)
